@@ -179,6 +179,46 @@ var props = []PropSpec{
 				Bounds: "all schedules of depth 5 (quick) / 6 (thorough) over {template/refresh, bad template, data, advance by symbolic d, fire a due armed timer, run a pending callback} on 2 keys (two template ids of one observation domain); all timing relations are the solver's"},
 		},
 	},
+	{
+		ID: "C18", Pkg: "./c18", ReplayPkg: "./cmd/rc18", Level: "other",
+		Explanation: "CONFIGURATION CONTRACT ONLY. TLS/DTLS handshakes, X.509 chain building, validity periods, SAN matching and protocol versions are crypto/tls, crypto/x509 and pion/dtls; none of that can be encoded for an SMT solver and the certificate matrix of the property's quantifier (expired, wrong SAN, other CA, peer max version ...) is NOT explored. What go-ipfix itself contributes to the property - which dial/listen function it calls and with which configuration - is decided by symbolic execution of the real InitExportingProcess / createClientConfig / Start / startTCPServer / createServerConfig / startUDPServer with the dial, listen and PEM-parsing functions replaced by recorders: with TLS settings present only tls.Dial (tcp) / dtls.Dial (udp) is called, never net.Dial; InsecureSkipVerify false; RootCAs exactly the pool built from the configured CA (never nil = system roots); MinVersion >= TLS 1.2; ServerName passed through for every value (symbolic string); no custom verification callbacks; a CA or key pair that does not parse is an error, not a fallback; the encrypted collector calls only tls.Listen / dtls.Listen, and with a client CA requires and verifies client certificates against exactly that pool; without security settings no TLS function is called. Counterexamples are replayed in the interpreter on the recorded choices (a native replay would need the real network environment).",
+		Assumptions: []string{
+			"trusted base: given such a configuration, the Go standard library and pion/dtls enforce chain, validity, name and version",
+			"tls.Dial, dtls.Dial, net.Dial, tls.Listen, dtls.Listen, net.Listen, net.ListenUDP, net.ResolveUDPAddr, x509 CertPool.AppendCertsFromPEM and tls.X509KeyPair are recorders; whether PEM data / a key pair parses is a nondeterministic boolean (both outcomes explored)",
+			"the ticker goroutines started by InitExportingProcess are parked (time.NewTicker never fires)",
+			"the statement asks client-certificate verification of the TLS collector only; the DTLS collector's configuration is checked for certificates and absence of PSK",
+		},
+		Harnesses: []HarnessSpec{
+			{Func: "Check_Exporter", NoNative: true, Reach: []string{"plaintext", "configuration-error", "tls", "dtls"},
+				Bounds: "protocol {tcp, udp} x TLS settings {absent, present} x client certificate {absent, present} x CA parses {yes, no} x key pair parses {yes, no} x ServerName {empty, 6 symbolic bytes}"},
+			{Func: "Check_Collector", NoNative: true, Reach: []string{"plaintext", "configuration-error", "tls", "tls-client-auth", "dtls"},
+				Bounds: "protocol {tcp, udp} x isEncrypted x client CA {absent, present} x PEM / key pair parsing outcomes"},
+		},
+	},
+	{
+		ID: "C19", Pkg: "./c19", ReplayPkg: "./cmd/rc19", Level: "other",
+		Explanation: "The protobuf runtime (google.golang.org/protobuf: unsafe and reflection based) cannot be interpreted and is stubbed: proto.Marshal returns ARBITRARY bytes of symbolic content (length split over a short menu), proto.Unmarshal records its input, generated ProtoReflect methods hand the generated struct through. Decided by symbolic execution of the real PublishIPFIXMessages, SendFlowMessage, both shipped convertors (flowtype1.go, flowtype2.go) and consumer.DecodeAndPrintMsg against a recording sarama.AsyncProducer: exactly one Kafka message per data record, in record order, none for template messages, on the configured topic; the struct handed to Marshal carries the record's values (symbolic) and the message's export time, sequence number, observation domain and exporter address in the schema's fields; the payload is a 4-byte big-endian length followed by exactly the marshalled bytes; the consumer hands exactly those bytes to Unmarshal. NOT covered: the protobuf wire encoding/decoding itself (trusted). Counterexamples are replayed in the interpreter (the stubbed marshaller has no native counterpart).",
+		Assumptions: []string{
+			"protobuf runtime trusted and stubbed (Marshal = arbitrary bytes, Unmarshal = recorder)",
+			"IP addresses and the exporter address are concrete (their rendering is net.IP.String formatting); all numeric fields and the pod name are symbolic",
+		},
+		Harnesses: []HarnessSpec{
+			{Func: "Check_Publish", NoNative: true, Reach: []string{"published", "several-records", "nothing-published"},
+				Bounds: "streams of 1..2 (quick) / 1..3 (thorough) IPFIX messages, each a template or a data message with 0..2 records, IPv4 or IPv6, two exporter addresses, both schemas; marshalled length {0,7} / {0,1,2,7,300}"},
+		},
+	},
+	{
+		ID: "C11", Pkg: "./c11", ReplayPkg: "./cmd/rc11", Level: "model_checking",
+		Assumptions: append([]string{
+			"handleTCPClient runs its reader goroutine under the engine's cooperative, deterministic run-to-block scheduler; schedules are NOT enumerated (the reader goroutine and the select in the handler synchronise only through doneCh and the message channel)",
+			"the connection is an in-memory net.Conn that returns the stream in segments: every Read returns the bytes up to the next cut point (1..len(p) bytes), then io.EOF",
+			"delays between segments are not modelled (the code has no timeouts on the read path)",
+		}, codecAssumptions...),
+		Harnesses: []HarnessSpec{
+			{Func: "Check_Segmentation", Reach: []string{"all-delivered", "closed-after-undecodable-message"},
+				Bounds: "stream = template message + 2 data messages with symbolic values (+ optionally one undecodable message - bad version, length field shorter than the content, unknown template - at any of the 4 positions); every single cut point (quick), every pair of cut points (thorough) over the whole stream; a second connection afterwards"},
+		},
+	},
 }
 
 var _ = sym.Config{}
